@@ -200,6 +200,9 @@ func bindFeatures(t, j map[string]interface{}) map[string]bool {
 			walkT(rec(t["e"]))
 		case "ptr", "slice", "arr":
 			f[k] = true
+			if k == "slice" && sstr(rec(t["e"])["k"]) == "u8" {
+				f["bytes"] = true // []uint8 is []byte
+			}
 			walkT(rec(t["e"]))
 		case "st":
 			for _, fd := range seqOf(t["f"]) {
